@@ -129,8 +129,15 @@ def deref {α} : Option α → M α
 /-- `args[i]` with Go's bounds check -/
 def argAt (args : List Bytes) (i : Nat) : M Bytes := deref args[i]?
 
-def marshalToken (t : Token) : M Bytes := do tick .m; pure (encToken t)
-def marshalRoles (r : List Bytes) : M Bytes := do tick .m; pure (encRoles r)
+/-- `Marshal` of a token / role list.  A Go slice is shorter than 2^63 bytes: an encoding that would not fit does not exist
+    (the call cannot return it); the model makes that physical limit an explicit error branch — it is never taken on any
+    input the implementation can be given, and it is what lets "whatever was stored can be read back" be a theorem. -/
+def marshalToken (t : Token) : M Bytes := do
+  tick .m
+  if (encToken t).length < two63 then pure (encToken t) else fail .Other
+def marshalRoles (r : List Bytes) : M Bytes := do
+  tick .m
+  if (encRoles r).length < two63 then pure (encRoles r) else fail .Other
 
 def unmarshalToken (b : Bytes) : M Token := do
   tick .u
